@@ -108,7 +108,13 @@ Fixpoint rt_strlen (mem : list Z) : Z :=
 (* ---------------------------------------------------------------- histories *)
 
 Inductive ikind := KConst | KOpaque.     (* compile-time-known (literal / constant local) or through a call *)
-Record idx := { ix_kind : ikind; ix_ty : ity; ix_val : Z }.
+(* how the indexed container is reached. Dynamic arrays are handles, so every path below reaches the SAME array
+   (or string) as the direct local:  a[i] | f(a, i) with xs: []T | f(&a, i) with xs: &[]T | f(&'a, i) with xs: &'[]T |
+   { let r := &a; r[i] } | { let r := &'a; r[i] } | { let b := {.Arr = a} as Box; b.Arr[i] } | f(&b, i) with b: &Box |
+   f(&'b, i) with b: &'Box | { let aa := [a]; aa[0][i] }.   The run-time semantics below ignore the path. *)
+Inductive path := PDirect | PVal | PRef | PMut | PLRef | PLMut | PFld | PFRef | PFMut | PElem.
+Record idx := { ix_kind : ikind; ix_ty : ity; ix_val : Z; ix_path : path }.
+Definition is_direct (i : idx) : bool := match ix_path i with PDirect => true | _ => false end.
 
 Inductive op :=
 | OLit (xs : list Z)          (* a = [xs]           *)
@@ -120,9 +126,7 @@ Inductive op :=
 | OPrint (v : Z)              (* io::Println(v)     *)
 (* the array handed by plain name to a user function (dynamic arrays are handles: the callee works on the caller's array) *)
 | OCallGrow (vs : list Z)     (* grow_k(a, vs..)   fn grow_k(xs: []i32, v0.., vk-1) { append(&'xs, v0); .. }  k >= 0 *)
-| OCallLen                    (* show_len(a)       fn show_len(xs: []i32) { io::Println(len(xs)); }   read only *)
-| OCallSet (i : idx) (v : Z)  (* set_T(a, i, v)    fn set_T(xs: []i32, i: T, v: i32) { xs[i] = v; } *)
-| OCallGet (i : idx).         (* io::Println(get_T(a, i))   fn get_T(xs: []i32, i: T) -> i32 { return xs[i]; } *)
+| OCallLen.                   (* show_len(a)       fn show_len(xs: []i32) { io::Println(len(xs)); }   read only *)
 
 (* a program: `let s: str = <str>; let a := [init]; ops` *)
 Record prog := { p_str : list Z; p_init : list Z; p_ops : list op }.
@@ -147,8 +151,10 @@ Fixpoint static_ops (tracked : option Z) (ops : list op) : bool :=
   | [] => true
   | OLit xs :: r => static_ops (Some (Z.of_nat (length xs))) r
   | OAppend _ :: r => static_ops None r
-  | OSet i _ :: r => static_index_ok tracked i && static_ops tracked r
-  | OGet i :: r => static_index_ok tracked i && static_ops tracked r
+  (* only `a[i]` on the variable itself is checked; every other path names `a` in a call argument, a borrow, a
+     struct or array literal — a use that drops the remembered length — and indexes something that is not tracked *)
+  | OSet i _ :: r => if is_direct i then static_index_ok tracked i && static_ops tracked r else static_ops None r
+  | OGet i :: r => if is_direct i then static_index_ok tracked i && static_ops tracked r else static_ops None r
   | OLen :: r => static_ops tracked r
   | OSGet _ :: r => static_ops tracked r
   | OPrint _ :: r => static_ops tracked r
@@ -156,8 +162,6 @@ Fixpoint static_ops (tracked : option Z) (ops : list op) : bool :=
      drops the remembered length — whatever the callee does, also when it only reads *)
   | OCallGrow _ :: r => static_ops None r
   | OCallLen :: r => static_ops None r
-  | OCallSet _ _ :: r => static_ops None r
-  | OCallGet _ :: r => static_ops None r
   end.
 
 Definition static_accepts (p : prog) : bool :=
@@ -232,22 +236,6 @@ Fixpoint exec (mem : list Z) (ops : list op) (a : rarr) (c : chan) : chan * stat
   | OPrint v :: r => exec mem r a (ch_println c v)
   | OCallGrow vs :: r => exec mem r (fold_left rt_append vs a) c
   | OCallLen :: r => exec mem r a (ch_println c (rt_len a))
-  | OCallSet i v :: r =>
-      match index_i32 (ix_ty i) (ix_val i) (rt_len a) with
-      | None => (ch_panic c, Panicked)
-      | Some k => match rt_set a k v with
-                  | Some a' => exec mem r a' c
-                  | None => (ch_panic c, Panicked)
-                  end
-      end
-  | OCallGet i :: r =>
-      match index_i32 (ix_ty i) (ix_val i) (rt_len a) with
-      | None => (ch_panic c, Panicked)
-      | Some k => match rt_get a k with
-                  | Some x => exec mem r a (ch_println c x)
-                  | None => (ch_panic c, Panicked)
-                  end
-      end
   end.
 
 (* accepted?, lines that reached the pipe, status *)
@@ -283,16 +271,6 @@ Fixpoint spec (str : list Z) (ops : list op) (l : list Z) (out : list Z) : list 
   | OPrint v :: r => spec str r l (out ++ [v])
   | OCallGrow vs :: r => spec str r (l ++ vs) out
   | OCallLen :: r => spec str r l (out ++ [Z.of_nat (length l)])
-  | OCallSet i v :: r =>
-      let n := Z.of_nat (length l) in
-      if valid_index (ix_val i) n
-      then spec str r (upd l (Z.to_nat (norm_index (ix_val i) n)) v) out
-      else (out, Panicked)
-  | OCallGet i :: r =>
-      let n := Z.of_nat (length l) in
-      if valid_index (ix_val i) n
-      then spec str r l (out ++ [nth (Z.to_nat (norm_index (ix_val i) n)) l 0])
-      else (out, Panicked)
   end.
 
 Definition spec_run (p : prog) : list Z * status := spec (p_str p) (p_ops p) (p_init p) [].
@@ -303,7 +281,7 @@ Definition idx_wf (i : idx) : bool := in_tyb (ix_ty i) (ix_val i).
 
 Definition op_wf (o : op) : bool :=
   match o with
-  | OSet i _ | OGet i | OSGet i | OCallSet i _ | OCallGet i => idx_wf i
+  | OSet i _ | OGet i | OSGet i => idx_wf i
   | _ => true
   end.
 
@@ -356,3 +334,16 @@ Definition case_static_ok (c : case) : bool :=
 
 Definition bad_static_ids (cs : list case) : list Z :=
   map (fun c => let '(id, _, _, _, _) := c in id) (filter (fun c => negb (case_static_ok c)) cs).
+
+(* ---------------------------------------------------------------- access paths are irrelevant at run time *)
+
+Definition direct_idx (i : idx) : idx :=
+  {| ix_kind := ix_kind i; ix_ty := ix_ty i; ix_val := ix_val i; ix_path := PDirect |}.
+
+Definition direct_op (o : op) : op :=
+  match o with
+  | OSet i v => OSet (direct_idx i) v
+  | OGet i => OGet (direct_idx i)
+  | OSGet i => OSGet (direct_idx i)
+  | _ => o
+  end.
